@@ -620,7 +620,8 @@ class nat_const_ineq_macro(Macro):
             return False
 
         m, n = goal.arg.args
-        return m.is_number() and n.is_number() and m.dest_number() != n.dest_number()
+        return m.is_number() and n.is_number() and m.get_type() == NatType and \
+            n.get_type() == NatType and m.dest_number() != n.dest_number()
 
     def eval(self, goal, pts):
         assert len(pts) == 0 and self.can_eval(goal), "nat_const_ineq_macro"
@@ -681,7 +682,8 @@ class nat_const_less_eq_macro(Macro):
             return False
 
         m, n = goal.args
-        return m.is_number() and n.is_number() and m.dest_number() <= n.dest_number()
+        return m.is_number() and n.is_number() and m.get_type() == NatType and \
+            n.get_type() == NatType and m.dest_number() <= n.dest_number()
 
     def eval(self, goal, pts):
         assert len(pts) == 0 and self.can_eval(goal), "nat_const_less_eq_macro"
